@@ -78,9 +78,19 @@
                                          the decoder (run on the last k symbols) is in SIM with it, and the STACKS correspond:
                                          decoder stack = tip corners of the faces [tops Y k] = face of the current corner
                                          followed by the faces of the encoder's stack entries below its top
-    NOT proved: the encoder-side facts [script_at] for S in SEVERAL runs (the decoder side
-    [C01_ebsim_dec_roundtrip_script] already covers them; the encoder side needs [tops_stack] run by run); encodings WITH
-    split events (holes met by the traversal, handles): the general theorem. *)
+      C01_ebsim_trace_runs / C01_ebsim_runs_balanced / C01_ebsim_no_dead_pop_runs
+                                         proved, SEVERAL runs: the trace of any encoding is a sequence of at most |bits| runs
+                                         ([madj]: links inside a run, everything popped + a one-entry stack between two runs);
+                                         without split event every run's block of symbols is BALANCED ([RUNS2] / [BALC]: the
+                                         count 1 + #S - #E is >= 1 before every symbol of the run and 0 at its end) and
+                                         ideal (all symbols) = 1 - |bits|; by the potential ideal - |stack| + (#runs - 1)
+                                         no entry is ever popped dead ([ndpm])
+      C01_ebsim_roundtrip_no_event_all / _ct / C01_ebsim_trace_no_event
+                                         proved: THE ROUND TRIP ON THE CLASS  o_events o = []  (nothing else: symbols C S L R E,
+                                         ANY number of start faces / components / runs, every remove_invalid_vertices), and the
+                                         simulation along the trace for it ([sim4]: the decoder's stack = current face, the
+                                         encoder's entries below its top, one entry per later run)
+    NOT proved: encodings WITH split events (holes met by the traversal, handles): the general theorem. *)
 From Coq Require Import ZArith List Bool.
 From Draco Require Import Model.CornerTable Model.EbEncoder Model.EbTrace Proofs.CornerTable_proofs Proofs.EbEncoder_proofs.
 From Draco Require Import Proofs.EbTrace_proofs Proofs.EbSimEnc_proofs Proofs.EbSimDec_proofs Proofs.EbSimS_proofs Proofs.EbSimLoop_proofs Proofs.EbSim_proofs.
@@ -485,6 +495,57 @@ Theorem C01_ebsim_trace_no_event_1 : forall c2v opp nf nv niso ndeg o tr rm maxv
 Proof. exact ebsim_trace_noev1. Qed.
 Print Assumptions C01_ebsim_trace_no_event_1.
 
+(** several runs *)
+Theorem C01_ebsim_trace_runs : forall c2v opp nv niso ndeg o tr, eb_encode_tr c2v opp nv niso ndeg = EOk (o, tr) ->
+  exists t, tr = rev t /\
+   (t = [] \/ exists R, madj opp t R /\ R <= length (o_bits o) /\ exists cf r, t = cf :: r /\ slink opp cf (rev (o_syms o)) []).
+Proof. exact trace_runs. Qed.
+Print Assumptions C01_ebsim_trace_runs.
+
+Theorem C01_ebsim_runs_balanced : forall c2v opp nf nv niso ndeg o,
+  length c2v = 3 * nf -> opp_ok c2v opp -> (forall c, c < 3 * nf -> vtx c2v c < nv) -> one_fan c2v opp ->
+  eb_encode c2v opp nv niso ndeg = EOk o ->
+  let Q := o_pcc o in let Y := rev (o_syms o) in
+  (o_events o = [] -> ideal Y = (1 - Z.of_nat (length (o_bits o)))%Z) /\
+  RUNS2 opp (IFc' c2v opp nf) (o_events o = []) (rev (o_bits o)) (rev (skipn (length Y) Q)) (firstn (length Y) Q) Y.
+Proof. exact encode_runs2_wf. Qed.
+Print Assumptions C01_ebsim_runs_balanced.
+
+Theorem C01_ebsim_no_dead_pop_runs : forall c2v opp nv niso ndeg o tr, eb_encode_tr c2v opp nv niso ndeg = EOk (o, tr) ->
+  ideal (rev (o_syms o)) = (1 - Z.of_nat (length (o_bits o)))%Z -> ndpm opp (o_syms o) tr.
+Proof. exact ndpm_of_count. Qed.
+Print Assumptions C01_ebsim_no_dead_pop_runs.
+
+Theorem C01_ebsim_roundtrip_no_event_all : forall c2v opp nf nv niso ndeg o rm maxv,
+  length c2v = 3 * nf -> opp_ok c2v opp -> (forall c, c < 3 * nf -> vtx c2v c < nv) -> one_fan c2v opp ->
+  eb_encode c2v opp nv niso ndeg = EOk o -> o_events o = [] -> (cntv (rev (o_syms o)) <= maxv)%Z ->
+  let F := Z.of_nat (length (o_pcc o)) in
+  exists n s, Edgebreaker.eb_core (3 * F) maxv F rm (rev (o_syms o)) (o_events o) (Edgebreaker.bits_of_list (o_bits o)) = Edgebreaker.Ok (n, s) /\
+              eb_iso c2v opp (o_pcc o) (Edgebreaker.c2v s) (Edgebreaker.copp s).
+Proof. exact ebsim_roundtrip_noevent. Qed.
+Print Assumptions C01_ebsim_roundtrip_no_event_all.
+
+Theorem C01_ebsim_roundtrip_no_event_all_ct : forall faces t o rm, ct_create faces = Some t -> eb_encode_ct t = EOk o -> o_events o = [] ->
+  (Z.of_nat (3 * length faces + length (ct_vcorn t)) < 2147483648)%Z ->
+  ((3 * o_nfaces o) / 2 <= (o_nverts o * (o_nverts o - 1)) / 2)%Z ->
+  verts_fit o ->
+  exists n s, eb_decode_of o rm = Edgebreaker.Ok (n, s) /\ eb_iso (ct_c2v t) (ct_opp t) (o_pcc o) (Edgebreaker.c2v s) (Edgebreaker.copp s).
+Proof. exact ebsim_roundtrip_noevent_ct. Qed.
+Print Assumptions C01_ebsim_roundtrip_no_event_all_ct.
+
+Theorem C01_ebsim_trace_no_event : forall c2v opp nf nv niso ndeg o tr rm maxv,
+  length c2v = 3 * nf -> opp_ok c2v opp -> (forall c, c < 3 * nf -> vtx c2v c < nv) -> one_fan c2v opp ->
+  eb_encode_tr c2v opp nv niso ndeg = EOk (o, tr) -> o_events o = [] -> (cntv (rev (o_syms o)) <= maxv)%Z ->
+  let ns := length (o_syms o) in
+  let NC := (3 * Z.of_nat (length (o_pcc o)))%Z in
+  length tr = ns /\
+  forall i cf, nth_error tr i = Some cf ->
+    length (syms (cf_st cf)) = i /\
+    exists d, Edgebreaker.sym_loop NC maxv rm (Z.of_nat ns) (firstn (ns - i) (rev (o_syms o))) 0 (Edgebreaker.init_st []) = Edgebreaker.Ok d /\
+              sim4 c2v opp (o_pcc o) (rev (o_syms o)) ns NC maxv cf d.
+Proof. exact ebsim_trace_noevent. Qed.
+Print Assumptions C01_ebsim_trace_no_event.
+
 Theorem C01_ebsim_ndp_check_sound : forall opp tr, ndp_b opp tr = true -> ndp opp tr.
 Proof. exact ndp_b_sound. Qed.
 Print Assumptions C01_ebsim_ndp_check_sound.
@@ -600,3 +661,21 @@ Definition in_class_noev faces :=
 Example ebsim_class_noev_grids : in_class_noev (grid 3 3 false) = Some true /\ in_class_noev (grid 4 4 false) = Some true /\
   in_class_noev (firstn 8 (grid 3 3 false) ++ skipn 10 (grid 3 3 false)) = Some false.
 Proof. vm_compute. repeat split; reflexivity. Qed.
+
+(** the class "no split event" with several components that contain S symbols: two grid discs (the second one on the
+    vertices 100..), a grid disc next to a tetrahedron; the decoder executed on them *)
+Definition shift_faces (d : nat) (l : list (nat * nat * nat)) := map (fun f => match f with (a, b, c) => (a + d, b + d, c + d) end) l.
+Definition noevent_info faces :=
+  match ct_create faces with
+  | Some t => match eb_encode_ct t with
+              | EOk o => Some (match o_events o with [] => true | _ => false end, length (o_bits o), existsb (Z.eqb 1) (o_syms o),
+                               eb_roundtrip_b (ct_c2v t) (ct_opp t) o true, eb_roundtrip_b (ct_c2v t) (ct_opp t) o false)
+              | _ => None
+              end
+  | None => None
+  end.
+Example ebsim_noevent_two_grids : noevent_info (grid 3 3 false ++ shift_faces 100 (grid 4 4 false)) = Some (true, 2, true, true, true).
+Proof. vm_compute. reflexivity. Qed.
+Example ebsim_noevent_grid_and_tetrahedron :
+  noevent_info (grid 3 3 false ++ [(50,51,52);(50,53,51);(51,53,52);(52,53,50)]) = Some (true, 2, true, true, true).
+Proof. vm_compute. reflexivity. Qed.
